@@ -86,15 +86,17 @@ buf_cfg("MC_Buf_C08_q", "C08", 3, 7, ["x", "y"], ["C08", "C03", "C09"])
 add("C08", "MC_Buf.tla", "MC_Buf_C08_q", ("quick", "thorough"), 600, ["ActX", "ActY"])
 buf_cfg("MC_Buf_C03_q", "C03", 3, 7, ["x", "y"], ["C03", "C08"])
 add("C03", "MC_Buf.tla", "MC_Buf_C03_q", ("quick", "thorough"), 600, ["ActX", "ActY"])
-buf_cfg("MC_Buf_C09_q", "C09", 2, 5, ["x", "r"], ["C09", "C03"])
+buf_cfg("MC_Buf_C09_q", "C09", 3, 5, ["x", "r"], ["C09", "C03"])
 add("C09", "MC_Buf.tla", "MC_Buf_C09_q", ("quick", "thorough"), 600, ["ActX", "ActR", "ActImp"])
 buf_cfg("MC_Buf_C09_t", "C09", 3, 7, ["x", "r"], ["C09", "C03"])
 add("C09", "MC_Buf.tla", "MC_Buf_C09_t", ("thorough",), 1800, ["ActX", "ActR", "ActImp"])
 
 # --- byte-level stream ciphers: ImplStream.tla (wrapper + cores) vs the position machines ------------------
-def stream_cfg(name, prop, kinds, bs, fl, depth, fields, seeks, types, usize, invs, view=True, replay=False):
-    txt = "CONSTANTS\n  KINDS = %s\n  BS = %d\n  FL = %d\n  DEPTH = %d\n  FIELDS = {%s}\n  SEEKS = {%s}\n  TYPES = %s\n  USIZE = %d\n  PROP = \"%s\"\n" % (
-        sset(kinds), bs, fl, depth, ", ".join(map(str, fields)), ", ".join(map(str, seeks)), sset(types), usize, prop)
+def stream_cfg(name, prop, kinds, bs, fl, depth, fields, seeks, types, usize, invs, view=True, replay=False, applys=None):
+    applys = applys or list(range(0, 2 * bs + 2))
+    txt = "CONSTANTS\n  KINDS = %s\n  BS = %d\n  FL = %d\n  DEPTH = %d\n  FIELDS = {%s}\n  SEEKS = {%s}\n  TYPES = %s\n  USIZE = %d\n  PROP = \"%s\"\n  APPLYS = {%s}\n" % (
+        sset(kinds), bs, fl, depth, ", ".join(map(str, fields)), ", ".join(map(str, seeks)), sset(types), usize, prop,
+        ", ".join(map(str, applys)))
     txt += "SPECIFICATION Spec\n" + ("VIEW View\n" if view else "")
     txt += "INVARIANTS %s BufInv%s\nCHECK_DEADLOCK FALSE\n" % (" ".join(invs), " EmitReplay" if replay else "")
     open(os.path.join(HERE, name + ".cfg"), "w").write(txt)
@@ -107,11 +109,14 @@ for prop, kinds, invs in [("C04", ["ctr32be", "ctr32le"], ["C04", "C10", "C11"])
                           ("C10", ["ctr32be", "belt"], ["C10", "C04", "C06", "C11"]),
                           ("C11", ["ctr32le", "belt"], ["C11", "C10", "C04", "C06"]),
                           ("C08", ["ctr32be", "ofb", "belt"], ["C03", "C04", "C06", "C08"])]:
-    seeks = SEEKS_OK if prop != "C08" else [0]
+    seeks = SEEKS_OK if prop != "C08" else []
     acts = ACTS if prop != "C08" else ["ActApply", "ActRem"]
     stream_cfg("MC_Stream_%s_q" % prop, prop, kinds, 2, 2, 3, [0, 14, 15], seeks, ["d2", "d3"], 8, invs)
     add(prop, "MC_Stream.tla", "MC_Stream_%s_q" % prop, ("quick", "thorough"), 900, acts)
-    stream_cfg("MC_Stream_%s_sim" % prop, prop, kinds, 2, 2, 7, [0, 14, 15], seeks, ["d2", "d3"], 8, invs, view=False, replay=True)
+    # simulation walks also offer long requests (several whole blocks in one call: the cores' parallel path when replayed)
+    # (not for OFB: its symbolic keystream terms E(E(E(..))) nest once per block and grow as BS^depth)
+    stream_cfg("MC_Stream_%s_sim" % prop, prop, [k for k in kinds if k != "ofb"], 2, 2, 7, [0, 14, 15], seeks, ["d2", "d3"], 8,
+               invs, view=False, replay=True, applys=[0, 1, 2, 3, 4, 5, 9, 12, 17])
     add(prop, "MC_Stream.tla", "MC_Stream_%s_sim" % prop, ("quick", "thorough"), 900, [], {"sim": 40, "depth": 8})
     stream_cfg("MC_Stream_%s_t" % prop, prop, kinds, 2, 2, 5, [0, 14, 15], seeks, ["d2", "d3"], 8, invs)
     add(prop, "MC_Stream.tla", "MC_Stream_%s_t" % prop, ("thorough",), 3000, acts)
